@@ -269,7 +269,8 @@ def run_history(shard, ctx):
                         gi += 1
                 f2 = dict(facts, key=key)
                 with ctx.guard("history.integrate.call", f2) as g:
-                    got = np.asarray(copy.copy(obj).integrate(key, **kwargs))
+                    # queried on the state object ITSELF: whatever a query leaves behind is carried into the successors
+                    got = np.asarray(obj.integrate(key, **kwargs))
                 if not g.ok:
                     continue
                 ref = np.array([mass * np.asarray(rm.expect_poly(mom, forms, spec_k["spec"]), float) for mass, mom in par])
